@@ -125,11 +125,15 @@ def run(v):
     reg = dump()
     found, res = validate(v, reg)
     n = len(reg["objects"])
-    if n < 300 or len(reg["lookups"]) < 3000 or res.distinct != n:
+    if n < 300 or len(reg["lookups"]) < 3000 or res.distinct != n + len(reg['lines']):
         raise core.MachineryError(f"vacuity: {n} objects, {len(reg['lookups'])} lookups, {res.distinct} TLC states")
     for inv, oid in found:
-        name = reg["objects"][oid - 1]["name"] if oid else "?"
-        v.violation(f"{inv}:{name}", f"invariant {inv} of Registry.tla is violated for object {oid} ({name}): {json.dumps(reg['objects'][oid - 1]) if oid else ''}",
+        if 0 < oid <= n:
+            name, what = reg["objects"][oid - 1]["name"], json.dumps(reg["objects"][oid - 1])
+        else:
+            ln = reg["lines"][oid - n - 1]
+            name, what = f"Line({ln['el']},{ln['q']},{ln['t']})", json.dumps(ln)
+        v.violation(f"{inv}:{name}", f"invariant {inv} of Registry.tla is violated for {name}: {what}",
                     {"object": oid, "invariant": inv})
     v.add_cases(n + len(reg["lookups"]) + len(reg["lines"]), keys=[json.dumps(l["key"]) + l["via"] for l in reg["lookups"]] + [o["name"] for o in reg["objects"]], validated=1)
     v.coverage["exhaustive"] = True
